@@ -104,6 +104,92 @@ theorem permuting_views_layout_independent (f : ViewFn) (d1 d2 : Desc) (hs : d1.
     simp only [ViewFn.apply, Desc.broadcastTo, hs]
     by_cases h : broadcastableTo d2.shape sh = true <;> simp [h]
 
+/-- the outcome class of a basic index: the error, or the shape of the selection -/
+def ixOutcome : Except IxErr (Int × Shape × List Int) → Except IxErr Shape
+  | .ok (_, s, _) => .ok s
+  | .error e => .error e
+
+theorem applyIx_layout_independent (ixs : List Ix) :
+    ∀ (sh : Shape) (o1 o2 : Int) (st1 st2 : List Int), st1.length = sh.length → st2.length = sh.length →
+      ixOutcome (applyIx ixs o1 sh st1) = ixOutcome (applyIx ixs o2 sh st2) := by
+  induction ixs with
+  | nil =>
+    intro sh o1 o2 st1 st2 h1 h2
+    cases sh with
+    | nil =>
+      cases st1 <;> cases st2 <;> simp_all [applyIx, ixOutcome]
+    | cons n sh =>
+      cases st1 <;> cases st2 <;> simp_all [applyIx, ixOutcome]
+  | cons i r ih =>
+    intro sh o1 o2 st1 st2 h1 h2
+    cases i with
+    | newaxis =>
+      have := ih sh o1 o2 st1 st2 h1 h2
+      simp only [applyIx]
+      cases e1 : applyIx r o1 sh st1 <;> cases e2 : applyIx r o2 sh st2 <;> simp_all [ixOutcome]
+    | ellipsis =>
+      cases sh <;> cases st1 <;> cases st2 <;> simp_all [applyIx, ixOutcome]
+    | int k =>
+      cases sh with
+      | nil => cases st1 <;> cases st2 <;> simp_all [applyIx, ixOutcome]
+      | cons n sh =>
+        cases st1 with
+        | nil => simp at h1
+        | cons a st1 =>
+          cases st2 with
+          | nil => simp at h2
+          | cons b st2 =>
+            simp only [applyIx]
+            generalize (if k < 0 then k + (n : Int) else k) = k'
+            by_cases hk : k' < 0 ∨ k' ≥ (n : Int)
+            · simp [hk, ixOutcome]
+            · simp only [hk, if_false]
+              exact ih sh _ _ st1 st2 (by simpa using h1) (by simpa using h2)
+    | slice a b c =>
+      cases sh with
+      | nil => cases st1 <;> cases st2 <;> simp_all [applyIx, ixOutcome]
+      | cons n sh =>
+        cases st1 with
+        | nil => simp at h1
+        | cons x st1 =>
+          cases st2 with
+          | nil => simp at h2
+          | cons y st2 =>
+            simp only [applyIx]
+            by_cases hc : c = 0
+            · simp [hc, ixOutcome]
+            · simp only [hc, if_false]
+              have := ih sh (if (sliceAdjust n a b c).2 = 0 then o1 else o1 + (sliceAdjust n a b c).1 * x)
+                (if (sliceAdjust n a b c).2 = 0 then o2 else o2 + (sliceAdjust n a b c).1 * y) st1 st2 (by simpa using h1) (by simpa using h2)
+              revert this
+              cases applyIx r (if (sliceAdjust n a b c).2 = 0 then o1 else o1 + (sliceAdjust n a b c).1 * x) sh st1 <;>
+                cases applyIx r (if (sliceAdjust n a b c).2 = 0 then o2 else o2 + (sliceAdjust n a b c).1 * y) sh st2 <;>
+                simp_all [ixOutcome]
+
+/-- **getitem_layout_independent.**  Basic indexing, too, depends on the operand's shape only: for two windows of one
+shape (each with one stride per axis), `x[ix]` fails with the same error or succeeds with the same result shape and
+the same view-ness — whatever their offsets and strides.  Together with `permuting_views_layout_independent`:
+`reshape` is the one view op whose outcome depends on the memory layout. -/
+theorem getitem_layout_independent (ix : List Ix) (d1 d2 : Desc) (hs : d1.shape = d2.shape)
+    (h1 : d1.strides.length = d1.shape.length) (h2 : d2.strides.length = d2.shape.length) :
+    (match (ViewFn.getitem ix).apply d1, (ViewFn.getitem ix).apply d2 with
+     | .ok (r1, v1), .ok (r2, v2) => r1.shape = r2.shape ∧ v1 = v2
+     | .error e1, .error e2 => e1 = e2
+     | _, _ => False) := by
+  simp only [ViewFn.apply, Desc.index, hs]
+  cases he : expandEllipsis d2.shape.length ix with
+  | error e => simp
+  | ok ixs =>
+    simp only
+    have := applyIx_layout_independent ixs d2.shape d1.off d2.off d1.strides d2.strides (by rw [h1, hs]) h2
+    revert this
+    cases applyIx ixs d1.off d2.shape d1.strides <;> cases applyIx ixs d2.off d2.shape d2.strides <;>
+      simp_all [ixOutcome]
+
+/-- non-vacuity: `x[1, ::2]` on the C-ordered and on the Fortran-ordered (2,3) window — one result shape, a view -/
+example : ((ViewFn.getitem [.int 1, .slice none none 2]).apply (Desc.contig 0 [2, 3])).toOption.map (fun r => (r.1.shape, r.2)) = some ([2], true) ∧
+    ((ViewFn.getitem [.int 1, .slice none none 2]).apply ⟨0, [2, 3], [1, 2]⟩).toOption.map (fun r => (r.1.shape, r.2)) = some ([2], true) := by decide
+
 /-- non-vacuity: `.T` then a new axis on the C-ordered and on the Fortran-ordered (2,3) window -/
 example : ((ViewFn.tprop).apply (Desc.contig 0 [2, 3])).toOption.map (fun r => (r.1.shape, r.2)) =
     ((ViewFn.tprop).apply ⟨0, [2, 3], [1, 2]⟩).toOption.map (fun r => (r.1.shape, r.2)) := by decide
